@@ -205,6 +205,7 @@ pub fn catalogue() -> Vec<Decl> {
     infallible_try_from(&mut out);
     cows(&mut out);
     byte_vecs(&mut out);
+    capture_and_names(&mut out);
     out
 }
 
@@ -599,7 +600,8 @@ fn floats(out: &mut Vec<Decl>) {
 
         // B. sanitizers
         let mut k = ti;
-        for sl in [vec!["s_clamp"], vec!["s_nan0"], vec!["s_neg"], vec!["s_add1"], vec!["s_abs"]] {
+        // (s_recip, s_quad, s_big2inf turn finite inputs into non-finite stored values: `finite` speaks about the latter)
+        for sl in [vec!["s_clamp"], vec!["s_nan0"], vec!["s_neg"], vec!["s_add1"], vec!["s_abs"], vec!["s_recip"], vec!["s_quad"], vec!["s_big2inf"]] {
             for vi in 0..3 {
                 let mut d = Decl::new(inner);
                 d.sans = sl.iter().map(|n| { k += 1; SanSpec::With(f(n, FN_FORMS[k % FN_FORMS.len()])) }).collect();
@@ -1328,6 +1330,72 @@ fn cows(out: &mut Vec<Decl>) {
     out.push(with_full(Decl::new(inner).tag("cow-bare")));
 }
 
+/// bound expressions mentioning user items named like a generator's own locals (MIN, MAX, LOWER, UPPER, RANGE,
+/// lower(), upper()), each on the side where a captured name would change the value; and type names that a
+/// generator might take apart (ending in `Error`, `ParseError`, a single letter)
+fn capture_and_names(out: &mut Vec<Decl>) {
+    for t in [IntTy::I32, IntTy::U8, IntTy::I16] {
+        let sets: Vec<(&str, Vec<ValSpec>)> = vec![
+            ("lower-uses-MAX", vec![ValSpec::GreaterEq(expr_i("capture", "MAX - 95", 5)), ValSpec::LessEq(lit_i(60))]),
+            ("upper-uses-MIN", vec![ValSpec::Greater(lit_i(2)), ValSpec::Less(expr_i("capture", "MIN + 50", 60))]),
+            ("both-swapped", vec![ValSpec::LessEq(expr_i("capture", "MIN + 60", 70)), ValSpec::GreaterEq(expr_i("capture", "MAX - 97", 3))]),
+            ("fns", vec![ValSpec::GreaterEq(expr_i("capture", "lower()", 10)), ValSpec::Less(expr_i("capture", "upper()", 100))]),
+            ("LOWER-UPPER", vec![ValSpec::Greater(expr_i("capture", "LOWER - 5", 5)), ValSpec::Less(expr_i("capture", "UPPER", 100))]),
+            ("RANGE", vec![ValSpec::LessEq(expr_i("capture", "RANGE", 90)), ValSpec::GreaterEq(expr_i("capture", "RANGE - 80", 10))]),
+            ("one-sided-MAX", vec![ValSpec::Less(expr_i("capture", "MAX", 100))]),
+            ("one-sided-MIN", vec![ValSpec::GreaterEq(expr_i("capture", "MIN", 10))]),
+        ];
+        for (name, vals) in sets {
+            let mut d = std(Decl::new(Inner::Int(t)), vals).tag(&format!("capture:{name}"));
+            d.default = Some(DefaultSpec { macro_text: "MIN + MIN".into(), neutral_text: "MIN + MIN".into(), class: "expr".into() });
+            out.push(with_derives(d, &[Tr::Debug, Tr::Clone, Tr::PartialEq, Tr::TryFrom, Tr::FromStr, Tr::Display, Tr::Default, Tr::Deserialize, Tr::Arbitrary]));
+        }
+    }
+    for inner in [Inner::F32, Inner::F64] {
+        let sets: Vec<(&str, Vec<ValSpec>)> = vec![
+            ("lower-uses-MAX", vec![ValSpec::GreaterEq(expr_f("capture", "MAX - 95.0", 5.0)), ValSpec::LessEq(lit_f(60.0))]),
+            ("upper-uses-MIN", vec![ValSpec::Greater(lit_f(2.0)), ValSpec::Less(expr_f("capture", "MIN + 50.0", 60.0)), ValSpec::Finite]),
+            ("RANGE-LOWER", vec![ValSpec::Finite, ValSpec::LessEq(expr_f("capture", "RANGE", 90.0)), ValSpec::Greater(expr_f("capture", "LOWER - 5.0", 5.0))]),
+            ("fns", vec![ValSpec::GreaterEq(expr_f("capture", "lower()", 10.0)), ValSpec::Less(expr_f("capture", "upper()", 100.0))]),
+            ("one-sided-MAX", vec![ValSpec::Less(expr_f("capture", "MAX", 100.0)), ValSpec::Finite]),
+        ];
+        for (name, vals) in sets {
+            let mut d = std(Decl::new(inner), vals).tag(&format!("capture:{name}"));
+            d.default = Some(DefaultSpec { macro_text: "MIN + MIN".into(), neutral_text: "MIN + MIN".into(), class: "expr".into() });
+            out.push(with_derives(d, &[Tr::Debug, Tr::Clone, Tr::PartialEq, Tr::TryFrom, Tr::FromStr, Tr::Display, Tr::Default, Tr::Deserialize, Tr::Arbitrary]));
+        }
+    }
+    {
+        let u = |t: &str, v: u128| spelled("capture", t, t, Num::U(v), false);
+        for (name, vals) in [
+            ("len-MIN-MAX", vec![ValSpec::LenCharMin(u("MIN - 8", 2)), ValSpec::LenCharMax(u("MAX - 90", 10))]),
+            ("len-swapped", vec![ValSpec::LenCharMax(u("MIN", 10)), ValSpec::LenCharMin(u("MAX - 99", 1))]),
+            ("len-fns", vec![ValSpec::LenCharMax(u("lower()", 10)), ValSpec::NotEmpty]),
+        ] {
+            let d = std(Decl::new(Inner::Str), vals).tag(&format!("capture:{name}"));
+            out.push(with_derives(d, &[Tr::Debug, Tr::Clone, Tr::PartialEq, Tr::TryFrom, Tr::FromStr, Tr::Display, Tr::Deserialize, Tr::Arbitrary]));
+        }
+    }
+    // type names
+    for (ni, name) in ["RelativeError", "Error", "ParseError", "SyntaxErrorError", "E", "Errorless", "TError"].into_iter().enumerate() {
+        let mk = |inner: Inner, vals: Vec<ValSpec>| {
+            let mut d = std(Decl::new(inner), vals).tag(&format!("type-name:{name}"));
+            d.name_override = Some(name.to_string());
+            d
+        };
+        let traits = [Tr::Debug, Tr::Clone, Tr::PartialEq, Tr::TryFrom, Tr::FromStr, Tr::Display, Tr::Serialize, Tr::Deserialize];
+        match ni % 3 {
+            0 => out.push(with_derives(mk(Inner::Int(IntTy::I32), vec![ValSpec::LessEq(lit_i(100)), ValSpec::GreaterEq(lit_i(-5))]), &traits)),
+            1 => out.push(with_derives(mk(Inner::F64, vec![ValSpec::Finite, ValSpec::Greater(lit_f(0.0)), ValSpec::LessEq(lit_f(1.0))]), &traits)),
+            _ => {
+                let mut d = mk(Inner::Str, vec![ValSpec::NotEmpty, ValSpec::LenCharMax(lit_u(8))]);
+                d.sans = vec![SanSpec::Trim];
+                out.push(with_derives(d, &traits));
+            }
+        }
+    }
+}
+
 /// byte buffers `Vec<u8>`
 fn byte_vecs(out: &mut Vec<Decl>) {
     let inner = Inner::VecU8;
@@ -1420,7 +1488,10 @@ pub fn finalize(mut decls: Vec<Decl>, prefix: &str) -> Vec<Decl> {
     let mut prev_id = String::new();
     for (i, d) in decls.iter_mut().enumerate() {
         d.id = format!("{prefix}{:04}", i + 1);
-        d.type_name = format!("T{}{:04}", prefix.to_uppercase(), i + 1);
+        d.type_name = match &d.name_override {
+            Some(n) => n.clone(),
+            None => format!("T{}{:04}", prefix.to_uppercase(), i + 1),
+        };
         if d.twin_of.as_deref() == Some("PREV") {
             d.twin_of = Some(prev_id.clone());
         }
